@@ -1,5 +1,5 @@
 From Tramp Require Import Model.Base Model.Fee Model.Classify Model.Node Model.Provider Model.ProviderSys Model.Sys.
-From Tramp Require Import Proofs.SysBasics Proofs.SysShape Proofs.SysTheorems Proofs.SysTimers Proofs.SysReach Proofs.SysCalls Proofs.SysNode Proofs.SysSafety Props.C06.
+From Tramp Require Import Proofs.SysBasics Proofs.SysShape Proofs.SysTheorems Proofs.SysTimers Proofs.SysReach Proofs.SysCalls Proofs.SysNode Proofs.SysSafety Proofs.SysLive Props.C06.
 Check C06_held_or_answered : forall c s h,
   (exists en, entry_ (pl (fst (step c s (EvHtlc h)))) = Some en /\ In h (listeners en)) \/
   (exists r, In (OResp (hid h) r) (snd (step c s (EvHtlc h)))).
@@ -25,6 +25,11 @@ Check C06_poll_held_or_answered : forall c s sel en,
   entry_ (pl s) = Some en ->
   (exists en', entry_ (pl (fst (step c s (EvPoll sel)))) = Some en' /\ listeners en' = listeners en) \/
   (exists r, forall h, In h (listeners en) -> In (OResp (hid h) r) (snd (step c s (EvPoll sel)))).
+Check C06_every_held_htlc_is_answered : forall c n t0 h0 a0 evs en h,
+  node_ok n -> hist_wf c (sys_start n t0 h0 a0) evs ->
+  let s := after c n t0 h0 a0 evs in
+  entry_ (pl s) = Some en -> In h (listeners en) -> Answered c (hid h) s.
+Print Assumptions C06_every_held_htlc_is_answered.
 Print Assumptions C06_held_or_answered.
 Print Assumptions C06_poll_held_or_answered.
 Print Assumptions C06_answered_together_once.
